@@ -251,6 +251,40 @@ def stream_b(ctx, res, n):
                 res.violate(None, "load succeeded although an include could not be resolved", dict(case, loaded=loaded))
         if got[0] != exp[0] or (got[0] == "ok" and canon_sorted(got[1]) != canon_sorted(exp[1])):
             res.violate(None, "_process_includes differs from the deep-merge-in-scope law", dict(case, got=got, expected=exp))
+        # (3) the include files change on disk; the next load through the same schema (same IncludeField objects) merges what is there now
+        if exp[0] == "ok" and i % 2 == 0:
+            trees2 = {}
+            for nm, path in names.items():
+                t2 = gen_doc(rng, rng.choice([sk] + list(sk["subs"].values()) + [{"includes": [], "subs": {}}]), fnames)
+                trees2[nm] = t2
+                with open(path, "wb") as f:
+                    f.write(formatter.dumps(None, t2))
+            try:
+                exp2 = ("ok", spec_expand(sk, copy.deepcopy(doc), lambda fn: copy.deepcopy(trees2[fn]) if isinstance(fn, str) and fn in trees2 else None))
+            except (LookupError, TypeError):
+                exp2 = ("unresolved", None)
+            cfg5 = schema()
+            try:
+                if opts:
+                    with open(main, "rb") as fh:
+                        cfg5.loads(fh.read(), fmt, **opts)
+                else:
+                    cfg5.load(main, fmt)
+                loaded2 = ("ok", asdict(cfg5))
+            except Exception as e:  # noqa
+                loaded2 = ("fail", type(e).__name__)
+            if exp2[0] == "ok":
+                cfg6 = schema()
+                try:
+                    cfg6.load_tree(copy.deepcopy(exp2[1]))
+                    want2 = ("ok", asdict(cfg6))
+                except Exception as e:  # noqa
+                    want2 = ("fail", type(e).__name__)
+                if loaded2[0] != want2[0] or (loaded2[0] == "ok" and canon_sorted(loaded2[1]) != canon_sorted(want2[1])):
+                    res.violate("C18:stale-include", "a later load through the same schema does not merge the include files as they are at the time of that load",
+                                dict(case, files_now=trees2, loaded=loaded2, expected=want2))
+            elif loaded2[0] == "ok":
+                res.violate("C18:stale-include", "a later load succeeded although an include file is no longer resolvable", dict(case, files_now=trees2))
         os.chdir(old_cwd)
         # model request
         files = []
